@@ -21,7 +21,8 @@ EXPLANATION = (
     "a plain number/string by its annotations - not an astropy Quantity/Time/Angle; (R4) because read_subints flips the "
     "channel axis when the file's channel spacing is positive, the header built for the reader describes descending order "
     "under that same condition; (R5) unpack/scale/offset/weight are applied in that order on the (samples, pols, chans) "
-    "cube and the shape is validated. Not decided: sample values, scale/offset arithmetic, multi-polarisation sums."
+    "cube and the shape is validated; (R6) sample counts, shapes, sampling time, depth, channel frequencies and the start epoch "
+    "are read from the PSRFITS keys/columns that define them. Not decided: sample values, scale/offset arithmetic, multi-polarisation sums."
 )
 READERS = "sigpyproc.readers"
 PFITS = "sigpyproc.io.pfits"
@@ -268,6 +269,40 @@ def run(prog: Program, res: Result, tier: str) -> None:
             raise AnalysisError(f"{name} cannot be compared with its reference definition: {why[0]}")
         (res.ok if verdict == "same" else res.bad)("R5", fn, fn.node, (what + "; " if verdict == "same" else f"{name} differs from its definition: ") +
                                                    ("; ".join(why))[:500], construct=name, key=f"{name}:definition")
+    # ---- R6 the PSRFITS keys behind the numbers ----------------------------------------------------------------
+    from ..props import property_expr
+    sh = prog.cls(PFITS, "SubintHdr")
+    want = {
+        "subint_samples": "self.header['NSBLK']", "nchans": "self.header['NCHAN']", "npol": "self.header['NPOL']", "nbits": "self.header['NBITS']",
+        "tsamp": "self.header['TBIN']", "nsubint": "self.header['NAXIS2']",
+        "nsamples": "self.header.get('NSTOT', self.subint_samples * self.nsubint)",
+        "subint_shape": "(self.subint_samples, self.npol, self.nchans)",
+        "freqs": "FrequencyChannels(self._sub_freqs[:self.nchans])",
+    }
+    for name, w in want.items():
+        pe = property_expr(prog, sh, name)
+        m = sh.methods.get(name)
+        ok = pe is not None and norm(pe) == w
+        (res.ok if ok else res.bad)("R6", m, m.node if m else sh.node, f"SubintHdr.{name} = {w}" if ok else
+                                    f"SubintHdr.{name} is `{norm(pe) if pe is not None else '?'}`, expected `{w}`", construct=f"SubintHdr.{name}", key=f"key:{name}")
+    fc = prog.cls("sigpyproc.utils", "FrequencyChannels")
+    for name, w in (("fch1", "self.array[0]"), ("foff", "self.array[1] - self.array[0]"), ("nchans", "len(self.array)")):
+        pe = property_expr(prog, fc, name)
+        m = fc.methods.get(name)
+        ok = pe is not None and norm(pe) == w
+        (res.ok if ok else res.bad)("R6", m, m.node if m else fc.node, f"FrequencyChannels.{name} = {w}" if ok else
+                                    f"FrequencyChannels.{name} is `{norm(pe) if pe is not None else '?'}`, expected `{w}`", construct=f"FrequencyChannels.{name}", key=f"freq:{name}")
+    pd_ = sh.methods.get("_parse_data")
+    ok = pd_ is not None and "self._sub_freqs = sub_data.field('DAT_FREQ')" in norm(pd_.node)
+    (res.ok if ok else res.bad)("R6", pd_, pd_.node if pd_ else sh.node, "channel frequencies come from the DAT_FREQ column of the first row" if ok else
+                                "SubintHdr no longer reads channel frequencies from DAT_FREQ", construct="_parse_data", key="key:DAT_FREQ")
+    ph = prog.cls(PFITS, "PrimaryHdr")
+    pe = property_expr(prog, ph, "tstart")
+    ok = pe is not None and "self.header['STT_IMJD']" in norm(pe) and "float(self.header['STT_SMJD'])" in norm(pe) and "float(self.header['STT_OFFS'])" in norm(pe) \
+        and "format='sec'" in norm(pe)
+    (res.ok if ok else res.bad)("R6", ph.methods["tstart"], ph.methods["tstart"].node, "start epoch = STT_IMJD days + (STT_SMJD + STT_OFFS) seconds" if ok else
+                                "PrimaryHdr.tstart is no longer STT_IMJD + STT_SMJD + STT_OFFS", construct="tstart", key="key:tstart")
+    res.floor("R6", 14)
     res.floor("R1", 8)
     res.floor("R2", 6)
     res.floor("R3", 8)
@@ -308,6 +343,12 @@ MUTANTS += [
     {"id": "c18-weights-once-per-block", "file": P, "expect": "C18.R5",
      "old": "                scloffs=scloffs,\n                weights=weights,\n            )\n            data_list.append(sdata)\n        data = np.concatenate(data_list)\n",
      "new": "                scloffs=scloffs,\n                weights=False,\n            )\n            data_list.append(sdata)\n        data = np.concatenate(data_list)\n        if weights:\n            data = (data * self.read_weights(startsub)).astype(np.float32, copy=False)\n"},
+    {"id": "c18-nsamples-one-row-short", "file": P, "expect": "C18.R6",
+     "old": "        return self.header.get(\"NSTOT\", self.subint_samples * self.nsubint)", "new": "        return self.header.get(\"NSTOT\", self.subint_samples * (self.nsubint - 1))"},
+    {"id": "c18-shape-pf-swapped", "file": P, "expect": "C18.R6",
+     "old": "        return (self.subint_samples, self.npol, self.nchans)", "new": "        return (self.subint_samples, self.nchans, self.npol)"},
+    {"id": "c18-foff-sign", "file": "sigpyproc/utils.py", "expect": "C18.R6",
+     "old": "        return self.array[1] - self.array[0]", "new": "        return self.array[0] - self.array[1]"},
     {"id": "c18-weights-of-row-zero", "file": P, "expect": "C18.R5",
      "old": "        weights = self._fits[\"SUBINT\"].data[isub][\"DAT_WTS\"]", "new": "        weights = self._fits[\"SUBINT\"].data[0][\"DAT_WTS\"]"},
     {"id": "c18-offsets-from-scales", "file": P, "expect": "C18.R5",
